@@ -330,7 +330,7 @@ Definition build (a : build_args) : result url :=
     (if nonempty (b_authority a) then
        do sp <- split_netloc (b_authority a);
        let '(us, pw, h, pt) := sp in
-       do h' <- (match h with Some h => encode_host O h false | None => Ok [] end);
+       do h' <- (match h with Some h => encode_host O h true | None => Ok [] end);
        Ok (Some h', us, pw, pt)
      else if nonempty (b_host a) then
        do h' <- encode_host O (b_host a) true; Ok (Some h', b_user a, b_password a, port)
